@@ -383,15 +383,21 @@ func runMachine(p Program) {
 	select {
 	case <-done:
 	case <-time.After(30 * time.Second):
-		buf := make([]byte, 1<<20)
-		n := runtime.Stack(buf, true)
-		var keep []string
-		for _, g := range strings.Split(string(buf[:n]), "\n\n") {
-			if strings.Contains(g, "asyncmachine-go/pkg/machine.") {
-				keep = append(keep, g)
+		sample := func() []string {
+			buf := make([]byte, 1<<20)
+			n := runtime.Stack(buf, true)
+			var keep []string
+			for _, g := range strings.Split(string(buf[:n]), "\n\n") {
+				if strings.Contains(g, "asyncmachine-go/pkg/machine.") {
+					keep = append(keep, g)
+				}
 			}
+			return keep
 		}
-		reportStuck(keep)
+		first := sample()
+		time.Sleep(2 * time.Second)
+		second := sample()
+		reportStuck(second, strings.Join(first, "\n\n") != strings.Join(second, "\n\n"))
 		fmt.Fprintln(os.Stderr, "=== CHILD DONE")
 		os.Exit(0)
 	}
@@ -402,13 +408,15 @@ func runMachine(p Program) {
 
 // reportStuck tells a deadlock (every goroutine inside the library is blocked) from a program that is
 // merely slow under the race detector and a loaded machine (some library goroutine is running).
-func reportStuck(stacks []string) {
+func reportStuck(stacks []string, moved bool) {
 	for _, g := range stacks {
 		head := g
 		if i := strings.Index(g, "\n"); i > 0 {
 			head = g[:i]
 		}
-		if strings.Contains(head, "[runnable") || strings.Contains(head, "[running") {
+		// a sleeping goroutine wakes up again (the schedule perturbation sleeps microseconds inside the library's
+		// schedule points); stacks that differ between two samples 2 s apart are progress as well
+		if moved || strings.Contains(head, "[runnable") || strings.Contains(head, "[running") || strings.Contains(head, "[sleep") {
 			fmt.Fprintf(os.Stderr, "child: PROGRAM SLOW (30 s, still running):\n%s\n", strings.Join(stacks, "\n\n"))
 			return
 		}
@@ -515,15 +523,21 @@ func runNetmach(p Program) {
 	select {
 	case <-done:
 	case <-time.After(30 * time.Second):
-		buf := make([]byte, 1<<20)
-		n := runtime.Stack(buf, true)
-		var keep []string
-		for _, g := range strings.Split(string(buf[:n]), "\n\n") {
-			if strings.Contains(g, "asyncmachine-go/pkg/") {
-				keep = append(keep, g)
+		sample := func() []string {
+			buf := make([]byte, 1<<20)
+			n := runtime.Stack(buf, true)
+			var keep []string
+			for _, g := range strings.Split(string(buf[:n]), "\n\n") {
+				if strings.Contains(g, "asyncmachine-go/pkg/") {
+					keep = append(keep, g)
+				}
 			}
+			return keep
 		}
-		reportStuck(keep)
+		first := sample()
+		time.Sleep(2 * time.Second)
+		second := sample()
+		reportStuck(second, strings.Join(first, "\n\n") != strings.Join(second, "\n\n"))
 		fmt.Fprintln(os.Stderr, "=== CHILD DONE")
 		os.Exit(0)
 	}
